@@ -144,7 +144,14 @@ struct Shared {
     fail_at: i64,
     budget: i64,
     log_evals: bool,
-    evals: Vec<(f64, Vec<C64>, Vec<C64>)>,
+    // step() snapshots and derivative-evaluation times in the order they happened (log_evals only)
+    trace: Vec<Value>,
+    id: i64,
+}
+
+fn snap_event(id: i64, s: &bacon_sci::verif_hooks::Snapshot) -> Value {
+    json!({"ev": "snap", "c": id, "time": fj(s.time), "dt": fj(s.dt), "ym": s.yield_memory,
+        "vlen": s.values_len, "vfirst": fj(s.values_first), "vlast": fj(s.values_last), "dlen": s.derivs_len, "order": s.order})
 }
 
 type Item = Result<(f64, Vec<C64>), IVPError>;
@@ -165,7 +172,13 @@ where
     let yc: Vec<C64> = y.iter().map(|v| v.to_c()).collect();
     let f = eval_rhs(&s.rhs, t, &yc);
     if s.log_evals {
-        s.evals.push((t, yc, f.clone()));
+        // the snapshots taken so far come first: an evaluation belongs to the latest step() call
+        for sn in bacon_sci::verif_hooks::drain() {
+            let e = snap_event(s.id, &sn);
+            s.trace.push(e);
+        }
+        let id = s.id;
+        s.trace.push(json!({"ev": "eval", "c": id, "t": fj(t)}));
     }
     let fv: Vec<N> = f.iter().map(|c| N::of_c(*c)).collect();
     Ok(BVector::from_column_slice_generic(dim, U1, &fv))
@@ -332,7 +345,8 @@ fn run_case(case: &Value, out: &mut Out) {
         fail_at: case["fail_at"].as_i64().unwrap_or(0),
         budget: case["budget"].as_i64().unwrap_or(5_000_000),
         log_evals: case["evals"].as_bool().unwrap_or(false),
-        evals: vec![],
+        trace: vec![],
+        id,
     }));
     let mut reset = case.clone();
     reset["ev"] = json!("reset");
@@ -355,15 +369,12 @@ fn run_case(case: &Value, out: &mut Out) {
         let mut nones = 0;
         loop {
             let item = it.next();
-            for s in bacon_sci::verif_hooks::drain() {
-                events.push(json!({"ev": "snap", "c": id, "time": fj(s.time), "dt": fj(s.dt), "ym": s.yield_memory,
-                    "vlen": s.values_len, "vfirst": fj(s.values_first), "vlast": fj(s.values_last), "dlen": s.derivs_len, "order": s.order}));
-            }
             {
                 let mut s = sh2.borrow_mut();
-                for (t, y, f) in s.evals.drain(..) {
-                    events.push(json!({"ev": "eval", "c": id, "t": fj(t), "y": cvj(&y), "f": cvj(&f)}));
-                }
+                events.append(&mut s.trace);
+            }
+            for s in bacon_sci::verif_hooks::drain() {
+                events.push(snap_event(id, &s));
             }
             let calls = sh2.borrow().calls;
             match item {
